@@ -105,26 +105,50 @@ Record ret_params := {
 Definition default_params : ret_params :=
   {| rp_abort := false; rp_overlap := false; rp_elapsed := 0%N; rp_zero_start := false; rp_sessions := 0 |}.
 
+(* what the goroutine of startControlPlaneRetirement does after the connections are drained or aborted,
+   in EXECUTED order (deferred calls run last-registered-first after the body) *)
+Inductive tail_step :=
+| TCancel        (* oldCancel() *)
+| TCloseGen      (* oldControlPlane.Close(): the previous generation is gone when this returns *)
+| TCleanup       (* successor.RunReloadRetirementCleanup *)
+| TCloseDone     (* close(done): whoever waits for the retirement may go on *)
+| TOther.
+
+(* the previous generation is closed before done is, and done is closed exactly once *)
+Fixpoint tail_ok (closed : bool) (l : list tail_step) : bool :=
+  match l with
+  | [] => false
+  | TCloseDone :: rest => closed && negb (existsb (fun x => match x with TCloseDone => true | _ => false end) rest)
+  | TCloseGen :: rest => tail_ok true rest
+  | _ :: rest => tail_ok closed rest
+  end.
+
 (* the goroutine of startControlPlaneRetirement *)
 Inductive rt_pc :=
 | RtInit                       (* spawned; before retireControlPlaneConnections *)
 | RtWait (deadline : option N) (* in the select of waitForControlPlaneDrain; Some t: timer fires at t *)
-| RtTail                       (* connections drained or aborted; oldCancel/Close; before close(done) *)
-| RtDone.                      (* done closed *)
+| RtTail                       (* connections drained or aborted; executing rt_tail *)
+| RtDone.                      (* goroutine finished *)
 Record retirement := {
   rt_pc_of : rt_pc;
   rt_abort : bool; rt_overlap : bool;
   rt_budget : Z;               (* drainBudget computed by startControlPlaneRetirement *)
   rt_sessions : nat;           (* ActiveSessionCount() of the old generation *)
   rt_idle : bool;              (* DrainIdleCh() closed *)
-  rt_cancelled : bool          (* retireCtx cancelled by the next startControlPlaneRetirement *)
+  rt_cancelled : bool;         (* retireCtx cancelled by the next startControlPlaneRetirement *)
+  rt_closed : bool;            (* oldControlPlane.Close() has returned *)
+  rt_tail : list tail_step     (* what is left of the tail *)
 }.
 Definition set_rt_pc (pc : rt_pc) (r : retirement) : retirement :=
-  Build_retirement pc (rt_abort r) (rt_overlap r) (rt_budget r) (rt_sessions r) (rt_idle r) (rt_cancelled r).
+  Build_retirement pc (rt_abort r) (rt_overlap r) (rt_budget r) (rt_sessions r) (rt_idle r) (rt_cancelled r) (rt_closed r) (rt_tail r).
 Definition rt_cancel (r : retirement) : retirement :=
-  Build_retirement (rt_pc_of r) (rt_abort r) (rt_overlap r) (rt_budget r) (rt_sessions r) (rt_idle r) true.
+  Build_retirement (rt_pc_of r) (rt_abort r) (rt_overlap r) (rt_budget r) (rt_sessions r) (rt_idle r) true (rt_closed r) (rt_tail r).
 Definition rt_drain (r : retirement) : retirement :=
-  Build_retirement (rt_pc_of r) (rt_abort r) (rt_overlap r) (rt_budget r) 0 true (rt_cancelled r).
+  Build_retirement (rt_pc_of r) (rt_abort r) (rt_overlap r) (rt_budget r) 0 true (rt_cancelled r) (rt_closed r) (rt_tail r).
+(* one step of the tail done: [closed] whether it was the Close of the old generation *)
+Definition rt_advance (closed : bool) (rest : list tail_step) (r : retirement) : retirement :=
+  Build_retirement (rt_pc_of r) (rt_abort r) (rt_overlap r) (rt_budget r) (rt_sessions r) (rt_idle r) (rt_cancelled r)
+                   (rt_closed r || closed) rest.
 
 (* What the translator supplies. *)
 Record tables := {
@@ -133,7 +157,8 @@ Record tables := {
   t_cap : nat;                  (* capacity of the request channel *)
   t_quiesce : N;                (* reloadFailureQuiesce, ns *)
   t_timer_guard : guard;        (* when waitForControlPlaneDrain arms its drain timer *)
-  t_budget_total : Z            (* reloadTotalSwitchBudget, ns *)
+  t_budget_total : Z;           (* reloadTotalSwitchBudget, ns *)
+  t_ret_tail : list tail_step   (* tail of the retirement goroutine, defers linearised *)
 }.
 
 (* program counter of a signal thread inside tryQueueReloadRequest *)
@@ -299,7 +324,13 @@ Definition ret_step (T : tables) (s : state) (d : nat) : state :=
           if rt_cancelled r || rt_idle r || (match dl with Some t => (t <=? now s)%N | None => false end)
           then set_rets (upd (rets s) d (set_rt_pc RtTail r)) s
           else s
-      | RtTail => set_rets (upd (rets s) d (set_rt_pc RtDone r)) (set_dones (upd (dones s) d true) s)
+      | RtTail =>
+          match rt_tail r with
+          | [] => set_rets (upd (rets s) d (set_rt_pc RtDone r)) s
+          | TCloseDone :: rest => set_rets (upd (rets s) d (rt_advance false rest r)) (set_dones (upd (dones s) d true) s)
+          | TCloseGen :: rest => set_rets (upd (rets s) d (rt_advance true rest r)) s
+          | _ :: rest => set_rets (upd (rets s) d (rt_advance false rest r)) s
+          end
       | RtDone => s
       end
   end.
@@ -320,7 +351,8 @@ Definition exec_prim (T : tables) (s : state) (p : prim) : state * list prim :=
       (* lastRetirementCancel(); fresh context and done channel; drainBudget computed here; go func *)
       let p := next_ret s in
       let r := Build_retirement RtInit (rp_abort p) (rp_overlap p)
-                 (remaining_budget (t_budget_total T) (rp_elapsed p) (rp_zero_start p)) (rp_sessions p) false false in
+                 (remaining_budget (t_budget_total T) (rp_elapsed p) (rp_zero_start p)) (rp_sessions p) false false
+                 false (t_ret_tail T) in
       (set_rets (cancel_last (rets s) ++ [r])
          (set_pend_ret (Some (length (dones s))) (set_dones (dones s ++ [false]) s)), [])
   | PClearPendingRetirement => (set_pend_ret None s, [])
@@ -466,7 +498,7 @@ Definition main_path_ok (p : list eff) : bool :=
 Definition tables_ok (T : tables) : bool :=
   forallb worker_path_ok (t_worker T) && forallb main_path_ok (t_main T)
   && negb (Nat.eqb (length (t_worker T)) 0) && negb (Nat.eqb (length (t_main T)) 0)
-  && Nat.leb 1 (t_cap T) && guard_total (t_timer_guard T).
+  && Nat.leb 1 (t_cap T) && guard_total (t_timer_guard T) && tail_ok false (t_ret_tail T).
 
 (* ---------------------------------------------------------------------------------------------
    Who has custody of an accepted, unreleased request (used to state mutual exclusion). *)
@@ -530,7 +562,7 @@ Definition call_coalesce (s : state) (req : bool) : state * bool :=
 (* the harness lets [wait] nanoseconds pass for retirement goroutine d (sessions possibly draining
    meanwhile), then every goroutine waiting on a closed channel runs to completion *)
 Definition call_retire (T : tables) (s : state) (d : nat) (wait : N) : state :=
-  let s1 := fold_left (step T) [ARetire d; AAdvance wait; ARetire d; ARetire d] s in
+  let s1 := fold_left (step T) ([ARetire d; AAdvance wait; ARetire d] ++ repeat (ARetire d) (S (length (t_ret_tail T)))) s in
   fold_left (fun st r => fold_left (fun st' _ => rel_step T st' r) [0;1;2;3;4] st)
             (seq 0 (length (releasers s1))) s1.
 
@@ -550,17 +582,23 @@ Definition demo_tables : tables :=
      t_cap := 1;
      t_quiesce := 0x4A817C800%N;
      t_timer_guard := GAlways;
-     t_budget_total := 0x2540BE400%Z |}.
+     t_budget_total := 0x2540BE400%Z;
+     t_ret_tail := [TCancel; TCloseGen; TCleanup; TOther; TCloseDone] |}.
 
 Definition demo_schedule_mid : list action :=
   [ASignal false; ASig 0; ASig 0; ASig 0; ASignal true; ASig 1; ASig 1;
    AWorkerTake 1; AWorker; AWorker; AWorker; AWorker; AWorker; AWorker; AMainStart 0].
 Definition demo_schedule_ok : list action :=
-  demo_schedule_mid ++ [AMain; AMain; AMain; AMain; AMain; ARetire 0; ARetire 0; AReleaser 0; AReleaser 0; AReleaser 0; AReleaser 0].
+  demo_schedule_mid ++ [AMain; AMain; AMain; AMain; AMain; ARetire 0; ARetire 0; ARetire 0; ARetire 0; ARetire 0; ARetire 0; ARetire 0; AReleaser 0; AReleaser 0; AReleaser 0; AReleaser 0].
 Definition demo_schedule_fail : list action :=
   [ASignal false; ASig 0; ASig 0; ASig 0; AWorkerTake 0;
    AWorker; AWorker; AWorker; AWorker; AWorker; AWorker; AWorker; AWorker].
 
 (* the schedule under which retirement goroutine d has to finish: it gets to run, k nanoseconds pass,
    it runs twice more *)
-Definition retire_schedule (d : nat) (k : N) : list action := [ARetire d; AAdvance k; ARetire d; ARetire d].
+Definition retire_schedule (T : tables) (d : nat) (k : N) : list action :=
+  [ARetire d; AAdvance k; ARetire d] ++ repeat (ARetire d) (S (length (t_ret_tail T))).
+
+(* the previous generation of retirement d is closed *)
+Definition gen_closed (s : state) (d : nat) : bool :=
+  match nth_error (rets s) d with Some r => rt_closed r | None => false end.
